@@ -244,3 +244,11 @@ __CPROVER_assigns()
 __CPROVER_ensures(__CPROVER_return_value == (0 < V(a) && V(a) < P && POWM(V(a), Q, P) == 1))
 //@ end
 
+
+//@ function JareckiLysyanskayaEDCF__CheckGroup
+//@ contract
+__CPROVER_requires(__CPROVER_is_fresh(self, sizeof(*self)) && ghost_sub_calls == 0)
+__CPROVER_assigns(ghost_sub_calls, ghost_sub_obj)
+/* C06 (delegating wrapper): exactly the verdict of the group check of the embedded RVSS object, asked once */
+__CPROVER_ensures(__CPROVER_return_value == ghost_sub_ret && ghost_sub_calls == 1 && ghost_sub_obj == (const void *)self->rvss)
+//@ end
